@@ -923,7 +923,9 @@ def one_case(ck, ci, rng):
         shutil.rmtree(tmpb, ignore_errors=True)
 
 
-# MUST_CATCH (selftest/breaks_c31.py, 29 planted breaks + seeded/C31-1, all caught):
+# MUST_CATCH (selftest/breaks_c31.py, 31 planted breaks + seeded/C31-1 + seeded/C24-3, all caught):
+#   read-test-write test vectors: size taken from len(specimen) on the server (= seeded/C24-3: the 'share must be
+#     new' test (0, 1, b"") matches any existing share) or in the adapter -- size > / < len(specimen) families
 #   multi-block PATCH pre-check: running offset lost (= seeded/C31-1, identical re-send > 64 KiB gets 409); only the
 #     first block pre-checked (conflict in a later block partially applied) -- directed large-write family
 #   range reads: client Range header +1 / -1; server read past end -> 416; read at end -> 416; _ReadRangeProducer
